@@ -77,6 +77,8 @@ def gen(rng, tier):
                 {"op": "remove", "p": rng.randint(0, 1)},
                 {"op": "backward", "p": rng.randint(0, 1), "due": rng.random() < 0.5, "reverse": rng.random() < 0.5},
                 {"op": "backward_defaults", "p": rng.randint(0, 1)},
+                {"op": "refused_call", "p": rng.randint(0, 1), "backward": rng.random() < 0.6},
+                {"op": "getters", "p": rng.randint(0, 1)},
             ]))
         spec["ops"] = ops
     return spec
@@ -522,6 +524,19 @@ def run_history(spec, res, dref, intact=None):
         elif kind == "backward_defaults":
             res.count("history_default_args_call")
             o_ = D.call(lambda: p.backward_simulate(max_time=cfg["max_time"]), D.Recorder(p, want_snap=False))
+        elif kind == "refused_call":
+            # a call the library refuses (unsupported task_performed_mode): the documented exception must leave the model as it was
+            if op.get("backward"):
+                o_r = D.call(lambda: p.backward_simulate(task_performed_mode="single-worker", max_time=cfg["max_time"]), D.Recorder(p, want_snap=False))
+            else:
+                o_r = D.call(lambda: p.simulate(task_performed_mode="single-worker", max_time=cfg["max_time"]), D.Recorder(p, want_snap=False))
+            res.count("history_refused_call")
+            if intact is not None and op["p"] == 0:
+                intact(p, "after a refused %s call" % ("backward_simulate" if op.get("backward") else "simulate"))
+        elif kind == "getters":
+            C.call_getters(p)
+            if intact is not None and op["p"] == 0:
+                intact(p, "after the unfiltered get_*_list helpers were called")
         if o_ is not None and o_.exc_type == "SutHang":
             # the first call on each project returned; a later call that never returns is behaviour changed by the history
             res.add("history", "C09.call_after_history_does_not_terminate." + kind,
